@@ -11,7 +11,7 @@ CORE_NOTE = ("Trusted: Lean 4.33 kernel (axioms propext, Classical.choice, Quot.
 
 P = {
  "C01": ("Lean 4 proof over the interpreter model (ev) + differential correspondence (eval/keys/cache facets) + cached-vs-uncached oracle",
-         "Theorems about the model's cache discipline (LabreaProps/C01.lean) for every program, dictionary and history; the model is tied to the code by correspondence on random histories, and every evaluation is paired with its labrea.cache.disabled() twin on the real code (plus model-guided single-key perturbations). Full transparency is false on the current tree for the catch positions of coalesce/switch (F18/F19), brace re-substitution (F22) and parameter references in option values (F26): those are listed known findings; the proved statement excludes them explicitly."),
+         "cache_transparent_of_fingerprint_sound: for every history on one long-lived store a MemoryCache-cached node returns its uncached outcome, provided equal fingerprints imply equal outcomes (the one hypothesis the known findings violate), plus the cache discipline (LabreaProps/C01.lean) for every program, dictionary and history; the model is tied to the code by correspondence on random histories, and every evaluation is paired with its labrea.cache.disabled() twin on the real code (plus model-guided single-key perturbations). Full transparency is false on the current tree for the catch positions of coalesce/switch (F18/F19), brace re-substitution (F22) and parameter references in option values (F26): those are listed known findings; the proved statement excludes them explicitly."),
  "C02": ("Lean 4 proof (trace/cache invariants of ev) + correspondence (trace/cache facets) + body/effect execution counters",
          "Model-level invariants on cache events for all histories; implementation side counts body and effect executions per dataset across exact repeats, repeats with never-mentioned keys, and top-level permutations."),
  "C03": ("Lean 4 proof (keys present, fingerprint is a function of sorted reported keys/values) + correspondence + restrict-and-re-evaluate oracle under several PYTHONHASHSEEDs",
